@@ -6,7 +6,7 @@ use std::path::{Path, PathBuf};
 use zysim_common::{Value, json};
 
 /// File slots, relative to the world directory `w/`.
-pub const SLOTS: [&str; 9] = [
+pub const SLOTS: [&str; 10] = [
     "root.zy",
     "a.zy",
     "b.zy",
@@ -16,6 +16,9 @@ pub const SLOTS: [&str; 9] = [
     "main.zydeco",
     "d/e.zy",
     ".zydeco-input-1",
+    // a file in a directory that exists only while the file does: its identity is
+    // computed with two missing components when it is looked up before it exists
+    "g/h.zy",
 ];
 pub const SLOT_ROOT: usize = 0;
 pub const SLOT_A: usize = 1;
@@ -26,13 +29,16 @@ pub const SLOT_B_SIG: usize = 5;
 pub const SLOT_MAIN: usize = 6;
 pub const SLOT_E: usize = 7;
 pub const SLOT_INPUT: usize = 8;
+pub const SLOT_H: usize = 9;
 pub const MISSING: usize = 99; // an import of a file that never exists
 
 /// `.zy` implementation -> adjacent `.zyi` slot, where that slot exists in the world.
-pub fn companion_of(slot: usize) -> Option<usize> {
+/// With the static symlinks, `c.zyi` and `d/e.zyi` are links to `b.zyi`.
+pub fn companion_of(slot: usize, symlinks: bool) -> Option<usize> {
     match slot {
         | SLOT_A => Some(SLOT_A_SIG),
         | SLOT_B => Some(SLOT_B_SIG),
+        | SLOT_C | SLOT_E if symlinks => Some(SLOT_B_SIG),
         | _ => None,
     }
 }
@@ -46,7 +52,16 @@ pub fn implementation_of(slot: usize) -> Option<usize> {
 }
 
 pub fn in_subdirectory(slot: usize) -> bool {
-    slot == SLOT_E
+    slot == SLOT_E || slot == SLOT_H
+}
+
+/// The sub-directory a slot lives in (`""` for the world directory itself).
+pub fn directory_of(slot: usize) -> &'static str {
+    match slot {
+        | SLOT_E => "d",
+        | SLOT_H => "g",
+        | _ => "",
+    }
 }
 
 /// What is really on disk at a slot.
@@ -144,7 +159,22 @@ impl Model {
 
     /// Pinned slots keep a regular file on disk for the whole run (symlink targets).
     pub fn pinned(&self, slot: usize) -> bool {
-        self.symlinks && (slot == SLOT_A || slot == SLOT_E)
+        self.symlinks && (slot == SLOT_A || slot == SLOT_E || slot == SLOT_B_SIG)
+    }
+
+    pub fn companion_of(&self, slot: usize) -> Option<usize> {
+        companion_of(slot, self.symlinks)
+    }
+
+    /// The initial contents of the pinned slots (mirrored by the generator and the executor).
+    pub fn pin(&mut self) {
+        if self.symlinks {
+            for slot in [SLOT_A, SLOT_E] {
+                self.slots[slot].disk = Disk::File(Content::plain("int1", "1", crate::content::Class::Closed));
+            }
+            self.slots[SLOT_B_SIG].disk =
+                Disk::File(Content::plain("sig-i64", "@[intrinsic(i64)] _", crate::content::Class::Signature));
+        }
     }
 
     /// A slot whose session view is known for certain.
@@ -164,7 +194,7 @@ impl Model {
                     continue;
                 }
                 let mut named: Vec<usize> = Vec::new();
-                if let Some(companion) = companion_of(slot) {
+                if let Some(companion) = companion_of(slot, self.symlinks) {
                     named.push(companion);
                 }
                 // every content the session may hold for this slot
@@ -289,6 +319,9 @@ impl Side {
         if symlinks {
             std::os::unix::fs::symlink("a.zy", self.root.join("l.zy"))?;
             std::os::unix::fs::symlink("d", self.root.join("dl"))?;
+            // companions that are links to a signature elsewhere
+            std::os::unix::fs::symlink("b.zyi", self.root.join("c.zyi"))?;
+            std::os::unix::fs::symlink("../b.zyi", self.root.join("d").join("e.zyi"))?;
         }
         Ok(())
     }
@@ -304,12 +337,19 @@ impl Side {
             }
             | Err(_) => {}
         }
+        if slot == SLOT_H {
+            // `g/` exists only while `g/h.zy` does
+            let _ = std::fs::remove_dir(self.root.join("g"));
+        }
     }
 
     /// Make the real directory reflect `disk` at `slot`.
     pub fn put(&self, slot: usize, disk: &Disk) {
         self.clear(slot);
         let path = self.path(slot);
+        if slot == SLOT_H && !matches!(disk, Disk::Absent) {
+            std::fs::create_dir_all(self.root.join("g")).expect("mkdir g");
+        }
         match disk {
             | Disk::Absent => {}
             | Disk::File(content) => {
